@@ -251,6 +251,11 @@ func (s *Server) SetRefuse(n int) { s.mu.Lock(); s.refuse = n; s.mu.Unlock() }
 // Dial connects to the server (use as Client.Dial / HostClient.Dial / PipelineClient.Dial).
 func (s *Server) Dial(addr string) (net.Conn, error) {
 	s.mu.Lock()
+	if strings.HasPrefix(addr, "refuse.") {
+		s.refused++
+		s.mu.Unlock()
+		return nil, &dialError{}
+	}
 	if s.refuse != 0 {
 		if s.refuse > 0 {
 			s.refuse--
@@ -425,6 +430,9 @@ type request struct {
 	id             string
 	hold           bool
 	attempt        int
+	hasXID         bool
+	redir          int  // "/redir/<n>/<id>": n redirects still to go before the response of id (-1: not a redirect path)
+	loop           bool // "/loop/<id>": redirects to itself for ever
 }
 
 var errBadRequest = errors.New("tagsrv: malformed request")
@@ -450,7 +458,7 @@ func (s *Server) readRequest(br *bufio.Reader, c *Conn, log *ConnLog) (*request,
 	if len(parts) != 3 || !strings.HasPrefix(parts[2], "HTTP/1.") {
 		return nil, errBadRequest
 	}
-	rq := &request{method: parts[0], target: parts[1]}
+	rq := &request{method: parts[0], target: parts[1], redir: -1}
 	cl := 0
 	for {
 		if line, err = readLine(br); err != nil {
@@ -468,6 +476,7 @@ func (s *Server) readRequest(br *bufio.Reader, c *Conn, log *ConnLog) (*request,
 		case "x-id":
 			// "transmitted" = the X-Id line reached the server: log it at once.
 			rq.id = v
+			rq.hasXID = true
 			s.note(rq, c, log)
 		case "x-hold":
 			rq.hold = v == "1"
@@ -479,12 +488,25 @@ func (s *Server) readRequest(br *bufio.Reader, c *Conn, log *ConnLog) (*request,
 			return nil, errBadRequest // the harness never sends chunked requests
 		}
 	}
-	pathID := rq.target
-	if i := strings.LastIndexByte(pathID, '/'); i >= 0 {
-		pathID = pathID[i+1:]
+	// The id is the last path segment. Callers that cannot set headers (the URL helpers) say
+	// everything in the URL: "?hold=1" = X-Hold, "/redir/<n>/<id>" and "/loop/<id>" = redirects.
+	pathID, query, _ := strings.Cut(rq.target, "?")
+	if strings.Contains(query, "hold=1") {
+		rq.hold = true
 	}
-	if rq.attempt == 0 {
-		s.note(rq, c, log) // no X-Id header at all
+	segs := strings.Split(strings.TrimPrefix(pathID, "/"), "/")
+	switch {
+	case len(segs) == 3 && segs[0] == "redir":
+		if n, err := strconv.Atoi(segs[1]); err == nil && n >= 0 {
+			rq.redir = n
+		}
+	case len(segs) == 2 && segs[0] == "loop":
+		rq.loop = true
+	}
+	pathID = segs[len(segs)-1]
+	if !rq.hasXID {
+		rq.id = pathID
+		s.note(rq, c, log)
 	}
 	if pathID != rq.id {
 		s.mu.Lock()
@@ -496,7 +518,7 @@ func (s *Server) readRequest(br *bufio.Reader, c *Conn, log *ConnLog) (*request,
 		if _, err = io.ReadFull(br, body); err != nil {
 			return nil, err
 		}
-		if !bytes.Equal(body, s.ReqBodyOf(rq.id)) {
+		if rq.hasXID && !bytes.Equal(body, s.ReqBodyOf(rq.id)) {
 			s.mu.Lock()
 			s.bodyBad = append(s.bodyBad, rq.id)
 			s.mu.Unlock()
@@ -632,6 +654,19 @@ func (s *Server) serve(c *Conn, log *ConnLog) {
 		}
 		nresp := 0
 		for _, rq := range batch {
+			if rq.loop || rq.redir > 0 {
+				loc := rq.target
+				if rq.redir > 0 {
+					loc = "/redir/" + strconv.Itoa(rq.redir-1) + "/" + rq.id
+					if _, q, ok := strings.Cut(rq.target, "?"); ok {
+						loc += "?" + q
+					}
+				}
+				body := "redir." + rq.id + ":"
+				out = append(out, "HTTP/1.1 302 Found\r\nLocation: "+loc+"\r\nX-Id: redir."+rq.id+"\r\nContent-Length: "+strconv.Itoa(len(body))+"\r\n\r\n"+body...)
+				nresp++
+				continue
+			}
 			b := s.BehaviourOf(rq.id)
 			if b == Flaky && rq.attempt > 1 {
 				b = Normal
